@@ -91,7 +91,7 @@ def handler_env(S, meth, names=None, cls=CLS):
         data = token_data
     if cls == "TextPhase" and meth == "processCharacters":
         data = S.str("token.data")
-    if cls == "AfterBodyPhase" and meth == "processSpaceCharacters":
+    if cls in ("AfterBodyPhase", "AfterAfterBodyPhase") and meth == "processSpaceCharacters":
         data = S.str("token.data")
     token = S.dict({"type": 4 if meth.startswith("endTag") else 3, "name": tname, "data": data,
                     "selfClosing": S.bool("selfClosing"), "selfClosingAcknowledged": False})
@@ -975,3 +975,15 @@ IN_TABLE_TEXT = [
 
 for _m, _names, _fn in IN_TABLE_TEXT:
     globals()["InTableText_" + _m] = _mk(_m, _names, _fn, "InTableTextPhase")
+
+
+# ------------------------------------------------------------------------------------------- "after after body" mode
+AFTER_AFTER_BODY = [
+    ("processSpaceCharacters", None, spec_ab_space),
+    ("processCharacters", None, spec_ab_back_to_body),
+    ("startTagOther", None, spec_ab_back_to_body),
+    ("processEndTag", None, spec_ab_back_to_body),
+]
+
+for _m, _names, _fn in AFTER_AFTER_BODY:
+    globals()["AfterAfterBody_" + _m] = _mk(_m, _names, _fn, "AfterAfterBodyPhase")
